@@ -16,7 +16,29 @@ package corr
 // both sides (`wr err=…`).
 //
 // ops: cfg init= min= max= pacer=noop|leaky ext=<1: TWCC header extension, 0: none (RFC 8888)> [pcerr=<1: the pacer's Close returns an error>] | sent n= size= gap=<µs> | adv us=
-//      | fb kind=twcc|8888 base=<first seq> a=<arrival µs or x, comma separated> | close
+//      | fb kind=twcc|8888 base=<first seq> a=<arrival µs or x, comma separated> [bad=short|unk] | close | gate open=0|1
+//
+// Scenario classes beyond one estimator fed well-formed reports by a caller whose callback returns at once:
+//
+//   - `bad=short|unk` damages the TWCC report after it was built — the last receive delta is dropped (more received
+//     symbols than deltas) / a chunk of an unknown type is appended.  The feedback adapter rejects such a report as a
+//     whole (`wr err=invalid`), BEFORE anything reaches the estimator, and the session goes on with RTP writes and
+//     well-formed feedback (mostly about the same packets: the report is sent again intact).  The observation after
+//     a rejected report must be the previous one with no publish (`reject a-rejected-report-changed-the-estimator`
+//     otherwise), and every later step is checked like any other.  (A second estimator that is never given the
+//     damaged reports cannot serve as the reference: the rate calculator and the arrival-group accumulator run in two
+//     goroutines that update the rate controller in an order the scheduler picks, so two estimators with equal inputs
+//     may differ in delayTargetBitrate.)
+//   - `gate open=0`: from now on the change callback does not return (it records the value it was given on entry and
+//     then waits for the harness) while feedback keeps arriving and the target keeps changing; `gate open=1` lets all
+//     of them go, passes some virtual time and checks the estimator at quiescence: no callback is still running, no
+//     value turned up only now (every change was handed to the application when it happened, whatever earlier
+//     invocations were doing), and the getter's value is among the values of the last step that delivered any
+//     (`quiet ok`, otherwise `quiet <what>`).  The per-step clauses (callback values = pacer rates) stay in force
+//     while the gate is closed.
+//   - a call into the estimator that does not come back (a lock left held) freezes the whole bubble — a goroutine
+//     waiting for a sync.Mutex is not durably blocked, so virtual time stops —; the session therefore runs under a
+//     real-time progress watchdog: `BLOCKED <op>` after gccPatience without the session reaching its next call.
 
 import (
 	"errors"
@@ -25,6 +47,7 @@ import (
 	"sort"
 	"strings"
 	"sync"
+	"sync/atomic"
 	"testing"
 	"testing/synctest"
 	"time"
@@ -111,23 +134,308 @@ func (ob gccObs) check(prev, min, max int) string {
 	return "accept"
 }
 
+// gccParseTrace reads a recorded TRACE line back.
+func gccParseTrace(m map[string]string) (ob gccObs, ok bool) {
+	defer func() {
+		if recover() != nil {
+			ok = false
+		}
+	}()
+	for _, k := range []string{"t", "p", "cb", "dt", "lt", "st", "us", "min", "max"} {
+		if _, has := m[k]; !has {
+			return ob, false
+		}
+	}
+	if (m["st"] != "increase" && m["st"] != "decrease" && m["st"] != "hold") || (m["us"] != "overuse" && m["us"] != "underuse" && m["us"] != "normal") {
+		return ob, false
+	}
+	_, _ = atoi(m["min"]), atoi(m["max"])
+	return gccObs{target: atoi(m["t"]), pacer: parseInts(m["p"]), cbs: parseInts(m["cb"]), dt: atoi(m["dt"]), lt: atoi(m["lt"]),
+		st: m["st"], us: m["us"]}, true
+}
+
+// gccAcceptorVerdict is Interceptor.Gcc.accepts (lean/Interceptor/Model/Gcc.lean) with the driver's wrapping, word
+// for word.  It is used ONLY for TRACE lines that no longer belong to the execution (see the TRACE op): there the
+// interpreter has nothing of its own to say and repeats the acceptor, so that the two sides agree.
+func gccAcceptorVerdict(cmin, cmax, tmin, tmax, prev int, prevUpd bool, o gccObs) string {
+	if tmin != cmin || tmax != cmax {
+		return "reject cfg-mismatch"
+	}
+	lastD := prev
+	if len(o.pacer) > 0 {
+		lastD = o.pacer[len(o.pacer)-1]
+	}
+	sorted := append([]int(nil), o.pacer...)
+	sort.Ints(sorted)
+	same := len(sorted) == len(o.cbs)
+	for i := 0; same && i < len(sorted); i++ {
+		same = sorted[i] == o.cbs[i]
+	}
+	distinct, outOfBounds := true, false
+	q := prev
+	for _, x := range o.pacer {
+		distinct = distinct && x != q
+		q = x
+		outOfBounds = outOfBounds || x < cmin || x > cmax
+	}
+	clamp := func(b, lo, hi int) int {
+		if b > hi {
+			b = hi
+		}
+		if b < lo {
+			b = lo
+		}
+		return b
+	}
+	why := ""
+	switch {
+	case o.target < cmin:
+		why = "below-min"
+	case o.target > cmax:
+		why = "above-max"
+	case o.target <= 0:
+		why = "non-positive"
+	case lastD != o.target:
+		why = "getter-differs-from-last-pacer-rate"
+	case !same:
+		why = "callbacks-differ-from-pacer-rates"
+	case !distinct:
+		why = "publish-without-change"
+	case outOfBounds:
+		why = "published-out-of-bounds"
+	case o.dt == 0 && o.lt == 0:
+		if prevUpd {
+			why = "stats-reset"
+		} else if len(o.pacer) > 0 {
+			why = "publish-without-stats"
+		}
+	case o.dt < cmin || o.dt > cmax:
+		why = "delay-target-not-clamped"
+	case o.lt > o.dt:
+		why = "loss-target-above-wanted"
+	case o.target != clamp(min(o.dt, o.lt), cmin, cmax):
+		why = "target-not-min-of-estimates"
+	case !((o.us == "overuse" && o.st == "decrease") || (o.us == "normal" && o.st == "increase")):
+		why = "state-not-transition-of-usage"
+	}
+	if why == "" {
+		return "accept"
+	}
+	return "reject " + why
+}
+
+// gccInst is one estimator with its recording pacer, callback log and stream writer.
+type gccInst struct {
+	bwe  *gcc.SendSideBWE
+	rec  *gccRecPacer
+	w    interceptor.RTPWriter
+	cbMu sync.Mutex
+	cbs  []int // values the callback was given (recorded on entry) since the last observation
+	// the gate: while non-nil a callback invocation waits for it after recording its value
+	gate            chan struct{}
+	entered, exited int
+}
+
+func newGccInst(o *Out, ini, mn, mx int, pk string, ext, pcerr bool) *gccInst {
+	in := &gccInst{}
+	if pk == "noop" {
+		in.rec = &gccRecPacer{Pacer: gcc.NewNoOpPacer()}
+	} else {
+		in.rec = &gccRecPacer{Pacer: gcc.NewLeakyBucketPacer(ini)}
+	}
+	if pcerr {
+		in.rec.closeErr = errGccPacerClose
+	}
+	var err error
+	in.bwe, err = gcc.NewSendSideBWE(gcc.SendSideBWEInitialBitrate(ini), gcc.SendSideBWEMinBitrate(mn),
+		gcc.SendSideBWEMaxBitrate(mx), gcc.SendSideBWEPacer(in.rec))
+	if err != nil {
+		panic(err)
+	}
+	in.bwe.OnTargetBitrateChange(func(b int) {
+		in.cbMu.Lock()
+		in.cbs = append(in.cbs, b)
+		in.entered++
+		g := in.gate
+		in.cbMu.Unlock()
+		if g != nil {
+			<-g
+		}
+		in.cbMu.Lock()
+		in.exited++
+		in.cbMu.Unlock()
+	})
+	info := &interceptor.StreamInfo{SSRC: 1}
+	if ext {
+		info.RTPHeaderExtensions = []interceptor.RTPHeaderExtension{
+			{URI: "http://www.ietf.org/id/draft-holmer-rmcat-transport-wide-cc-extensions-01", ID: 5}}
+	}
+	o.InfoGuard("AddStream", info, func() { // the caller's StreamInfo comes back unedited (ambient_test.go)
+		in.w = in.bwe.AddStream(info,
+			interceptor.RTPWriterFunc(func(h *rtp.Header, p []byte, _ interceptor.Attributes) (int, error) {
+				return h.MarshalSize() + len(p), nil
+			}))
+	})
+	return in
+}
+
+func (in *gccInst) setGate(closed bool) {
+	in.cbMu.Lock()
+	defer in.cbMu.Unlock()
+	if closed && in.gate == nil {
+		in.gate = make(chan struct{})
+	}
+	if !closed && in.gate != nil {
+		close(in.gate)
+		in.gate = nil
+	}
+}
+
+// feed hands one feedback to WriteRTCP and classifies the result.
+func (in *gccInst) feed(pkts []rtcp.Packet) string {
+	var err error
+	panicked := false
+	func() {
+		defer func() {
+			if recover() != nil {
+				panicked = true
+			}
+		}()
+		err = in.bwe.WriteRTCP(pkts, nil)
+	}()
+	synctest.Wait()
+	switch {
+	case panicked:
+		return "wr PANIC"
+	case err == nil:
+		return "wr err=nil"
+	case errors.Is(err, gcc.ErrSendSideBWEClosed):
+		return "wr err=closed"
+	case err.Error() == "invalid feedback": // internal/cc.errInvalidFeedback (unexported)
+		return "wr err=invalid"
+	default:
+		return "wr err=other"
+	}
+}
+
+// observe takes what the property talks about: getter, pacer calls and callback values since the last observation, stats.
+func (in *gccInst) observe() gccObs {
+	st := in.bwe.GetStats()
+	ob := gccObs{target: in.bwe.GetTargetBitrate()}
+	in.rec.mu.Lock()
+	ob.pacer, in.rec.rates = in.rec.rates, nil
+	in.rec.mu.Unlock()
+	in.cbMu.Lock()
+	ob.cbs, in.cbs = in.cbs, nil
+	in.cbMu.Unlock()
+	sort.Ints(ob.cbs)
+	ob.dt, _ = st["delayTargetBitrate"].(int)
+	ob.lt, _ = st["lossTargetBitrate"].(int)
+	ob.st, _ = st["state"].(string)
+	ob.us, _ = st["usage"].(string)
+	return ob
+}
+
+// c09Other is the chunk of an unknown type (c09_test.go); gccDamage makes a built TWCC report one the adapter rejects.
+func gccDamage(pkts []rtcp.Packet, how string) bool {
+	for _, p := range pkts {
+		fb, ok := p.(*rtcp.TransportLayerCC)
+		if !ok {
+			continue
+		}
+		switch how {
+		case "short":
+			if len(fb.RecvDeltas) == 0 {
+				return false
+			}
+			fb.RecvDeltas = fb.RecvDeltas[:len(fb.RecvDeltas)-1]
+		case "unk":
+			fb.PacketChunks = append(fb.PacketChunks, c09Other{})
+		default:
+			return false
+		}
+		return true
+	}
+	return false
+}
+
+// gccProgress is bumped by the session before every call into the code under test (see gccWatched).
+type gccProgress struct {
+	n    atomic.Int64
+	what atomic.Value
+}
+
+func (p *gccProgress) at(what string) {
+	if p != nil {
+		p.what.Store(what)
+		p.n.Add(1)
+	}
+}
+
+// gccPatience: real time without progress after which a call counts as blocked for good.  One call is a few
+// goroutine hand-overs (microseconds of CPU); the virtual clock cannot help, it stands still while a goroutine
+// waits for a mutex.
+const gccPatience = 8 * time.Second
+
+// gccWatched runs a session in its own goroutine and gives up on it (the goroutine and its bubble are left behind)
+// when it makes no progress for gccPatience; the lines printed so far and a BLOCKED line are the case's output.
+func gccWatched(o *Out, session func(so *Out, pr *gccProgress)) (blocked bool) {
+	so := &Out{Amb: o.Amb}
+	pr := &gccProgress{}
+	done := make(chan any, 1)
+	go func() {
+		defer func() { done <- recover() }()
+		session(so, pr)
+	}()
+	tick := time.NewTicker(250 * time.Millisecond)
+	defer tick.Stop()
+	last, idle := int64(-1), 0
+	for {
+		select {
+		case r := <-done:
+			o.lines = append(o.lines, so.lines...)
+			if r != nil {
+				panic(r)
+			}
+			return false
+		case <-tick.C:
+			if n := pr.n.Load(); n != last {
+				last, idle = n, 0
+				continue
+			}
+			idle++
+			if time.Duration(idle)*250*time.Millisecond >= gccPatience {
+				what, _ := pr.what.Load().(string)
+				_ = pr.n.Load()
+				o.lines = append(o.lines, so.lines...)
+				o.P("BLOCKED %s did not return within %v of real time (virtual time stands still: a goroutine waits for a lock)", what, gccPatience)
+				return true
+			}
+		}
+	}
+}
+
 // gccSession executes ops on the real code.  For every fb op it calls onFb with the fresh
 // observation; TRACE ops are answered from the observation of the preceding fb.
-func gccSession(t *testing.T, ops []string, o *Out, onFb func(gccObs, int, int)) {
+func gccSession(t *testing.T, ops []string, o *Out, onFb func(gccObs, int, int), pr *gccProgress) {
 	synctest.Test(t, func(t *testing.T) {
 		start := time.Now()
-		var bwe *gcc.SendSideBWE
-		var rec *gccRecPacer
-		var w interceptor.RTPWriter
-		var cbMu sync.Mutex
-		var cbs []int
+		var in *gccInst
 		min, max, prev := 0, 0, 0
 		closed := false
 		seq, tw := 0, 0
 		var last *gccObs
+		rprev, rprevUpd := 0, false // the acceptor's chain over the RECORDED lines (see TRACE)
+		var before *gccObs          // the observation before the last feedback
+		untouched := ""    // set when a rejected report left a trace in the estimator
+		var lastCbStep []int // callback values of the last step that delivered any
 		defer func() {
-			if bwe != nil && !closed {
-				_ = bwe.Close()
+			if in != nil {
+				in.setGate(false)
+				if !closed {
+					pr.at("Close (end of the case)")
+					_ = in.bwe.Close()
+				}
 			}
 		}()
 		for _, op := range ops {
@@ -143,54 +451,29 @@ func gccSession(t *testing.T, ops []string, o *Out, onFb func(gccObs, int, int))
 				if !havePc {
 					pcerr = "0"
 				}
-				if !ok1 || !ok2 || !ok3 || bwe != nil || (pk != "noop" && pk != "leaky") || (ext != "0" && ext != "1") ||
+				if !ok1 || !ok2 || !ok3 || in != nil || (pk != "noop" && pk != "leaky") || (ext != "0" && ext != "1") ||
 					(pcerr != "0" && pcerr != "1") || mn < 1 || mn > ini || ini > mx {
 					o.P("bad-op")
 					continue
 				}
-				if pk == "noop" {
-					rec = &gccRecPacer{Pacer: gcc.NewNoOpPacer()}
-				} else {
-					rec = &gccRecPacer{Pacer: gcc.NewLeakyBucketPacer(ini)}
-				}
-				if pcerr == "1" {
-					rec.closeErr = errGccPacerClose
-				}
-				var err error
-				bwe, err = gcc.NewSendSideBWE(gcc.SendSideBWEInitialBitrate(ini), gcc.SendSideBWEMinBitrate(mn),
-					gcc.SendSideBWEMaxBitrate(mx), gcc.SendSideBWEPacer(rec))
-				if err != nil {
-					panic(err)
-				}
-				bwe.OnTargetBitrateChange(func(b int) {
-					cbMu.Lock()
-					cbs = append(cbs, b)
-					cbMu.Unlock()
-				})
-				info := &interceptor.StreamInfo{SSRC: 1}
-				if ext == "1" {
-					info.RTPHeaderExtensions = []interceptor.RTPHeaderExtension{
-						{URI: "http://www.ietf.org/id/draft-holmer-rmcat-transport-wide-cc-extensions-01", ID: 5}}
-				}
-				w = bwe.AddStream(info,
-					interceptor.RTPWriterFunc(func(h *rtp.Header, p []byte, _ interceptor.Attributes) (int, error) {
-						return h.MarshalSize() + len(p), nil
-					}))
-				min, max, prev = mn, mx, ini
+				pr.at("NewSendSideBWE/AddStream")
+				in = newGccInst(o, ini, mn, mx, pk, ext == "1", pcerr == "1")
+				min, max, prev, rprev = mn, mx, ini, ini
 				synctest.Wait()
 			case "sent":
 				n, ok1 := c17NatOK(m, "n", 2000)
 				size, ok2 := c17NatOK(m, "size", 1460)
 				gap, ok3 := c17NatOK(m, "gap", 10_000_000)
-				if !ok1 || !ok2 || !ok3 || bwe == nil {
+				if !ok1 || !ok2 || !ok3 || in == nil {
 					o.P("bad-op")
 					continue
 				}
 				for i := 0; i < n; i++ {
+					pr.at("the RTP write of `" + op + "`")
 					h := &rtp.Header{Version: 2, PayloadType: 96, SequenceNumber: uint16(seq), SSRC: 1, Timestamp: uint32(seq) * 3000}
 					ext, _ := (&rtp.TransportCCExtension{TransportSequence: uint16(tw)}).Marshal()
 					_ = h.SetExtension(5, ext)
-					_, _ = w.Write(h, make([]byte, size), nil)
+					_, _ = in.w.Write(h, make([]byte, size), nil)
 					seq++
 					tw++
 					if gap > 0 {
@@ -204,35 +487,67 @@ func gccSession(t *testing.T, ops []string, o *Out, onFb func(gccObs, int, int))
 					o.P("bad-op")
 					continue
 				}
+				pr.at("adv")
 				time.Sleep(time.Duration(d) * time.Microsecond)
 				synctest.Wait()
+			case "gate":
+				if in == nil || (m["open"] != "0" && m["open"] != "1") {
+					o.P("bad-op")
+					continue
+				}
+				pr.at("gate")
+				if m["open"] == "0" {
+					in.setGate(true)
+					continue
+				}
+				in.setGate(false)
+				time.Sleep(time.Millisecond)
+				synctest.Wait()
+				in.cbMu.Lock()
+				late := append([]int(nil), in.cbs...)
+				in.cbs = nil
+				running := in.entered - in.exited
+				in.cbMu.Unlock()
+				getter := in.bwe.GetTargetBitrate()
+				among := len(lastCbStep) == 0
+				for _, v := range lastCbStep {
+					among = among || v == getter
+				}
+				switch {
+				case running != 0:
+					o.P("quiet callbacks-still-running=%d", running)
+				case len(late) != 0:
+					o.P("quiet callback-values-delivered-only-now=%s getter=%d", joinInts(late), getter)
+				case !among && !closed:
+					o.P("quiet getter=%d is-not-among-the-last-callback-values=%s", getter, joinInts(lastCbStep))
+				default:
+					o.P("quiet ok")
+				}
 			case "fb":
 				base, ok := c17NatOK(m, "base", 65535)
 				kind := m["kind"]
 				arr := strings.Split(m["a"], ",")
-				if !ok || bwe == nil || (kind != "twcc" && kind != "8888") || m["a"] == "" || len(arr) > 1000 {
+				how, damaged := m["bad"]
+				if !ok || in == nil || (kind != "twcc" && kind != "8888") || m["a"] == "" || len(arr) > 1000 ||
+					(damaged && (kind != "twcc" || (how != "short" && how != "unk"))) {
 					o.P("bad-op")
 					continue
 				}
-				var pkts []rtcp.Packet
-				bad := false
-				if kind == "twcc" {
-					r := twcc.NewRecorder(99)
-					for i, a := range arr {
-						if a == "x" {
-							continue
+				build := func() (pkts []rtcp.Packet, bad bool) {
+					if kind == "twcc" {
+						r := twcc.NewRecorder(99)
+						for i, a := range arr {
+							if a == "x" {
+								continue
+							}
+							v, okv := c17NatOK(map[string]string{"v": a}, "v", 1<<40)
+							if !okv {
+								return nil, true
+							}
+							r.Record(1, uint16(base+i), int64(v))
 						}
-						v, okv := c17NatOK(map[string]string{"v": a}, "v", 1<<40)
-						if !okv {
-							bad = true
-							break
-						}
-						r.Record(1, uint16(base+i), int64(v))
+						return r.BuildFeedbackPacket(), false
 					}
-					if !bad {
-						pkts = r.BuildFeedbackPacket()
-					}
-				} else {
 					nowUs := time.Since(start).Microseconds()
 					rep := &rtcp.CCFeedbackReport{SenderSSRC: 99,
 						ReportTimestamp: uint32(uint64(nowUs) * 65536 / 1_000_000)}
@@ -244,8 +559,7 @@ func gccSession(t *testing.T, ops []string, o *Out, onFb func(gccObs, int, int))
 						}
 						v, okv := c17NatOK(map[string]string{"v": a}, "v", 1<<40)
 						if !okv {
-							bad = true
-							break
+							return nil, true
 						}
 						off := (nowUs - int64(v)) * 1024 / 1_000_000
 						if off < 0 {
@@ -257,49 +571,30 @@ func gccSession(t *testing.T, ops []string, o *Out, onFb func(gccObs, int, int))
 						blk.MetricBlocks = append(blk.MetricBlocks, rtcp.CCFeedbackMetricBlock{Received: true, ArrivalTimeOffset: uint16(off)})
 					}
 					rep.ReportBlocks = []rtcp.CCFeedbackReportBlock{blk}
-					pkts = []rtcp.Packet{rep}
+					return []rtcp.Packet{rep}, false
+				}
+				pkts, bad := build()
+				if !bad && damaged && !gccDamage(pkts, how) {
+					bad = true // nothing to damage (no received packet): not a report the adapter rejects
 				}
 				if bad {
 					o.P("bad-op")
 					continue
 				}
-				var err error
-				panicked := false
-				func() {
-					defer func() {
-						if recover() != nil {
-							panicked = true
-						}
-					}()
-					err = bwe.WriteRTCP(pkts, nil)
-				}()
-				synctest.Wait()
-				switch {
-				case panicked:
-					o.P("wr PANIC")
-				case err == nil:
-					o.P("wr err=nil")
-				case errors.Is(err, gcc.ErrSendSideBWEClosed):
-					o.P("wr err=closed")
-				default:
-					o.P("wr err=other")
-				}
+				pr.at("the WriteRTCP of `" + op + "`")
+				o.P("%s", in.feed(pkts))
 				if closed {
 					continue
 				}
-				st := bwe.GetStats()
-				ob := gccObs{target: bwe.GetTargetBitrate()}
-				rec.mu.Lock()
-				ob.pacer, rec.rates = rec.rates, nil
-				rec.mu.Unlock()
-				cbMu.Lock()
-				ob.cbs, cbs = cbs, nil
-				cbMu.Unlock()
-				sort.Ints(ob.cbs)
-				ob.dt, _ = st["delayTargetBitrate"].(int)
-				ob.lt, _ = st["lossTargetBitrate"].(int)
-				ob.st, _ = st["state"].(string)
-				ob.us, _ = st["usage"].(string)
+				ob := in.observe()
+				if len(ob.cbs) > 0 {
+					lastCbStep = ob.cbs
+				}
+				if damaged && before != nil && ob.line(min, max) != (gccObs{target: before.target, dt: before.dt, lt: before.lt, st: before.st, us: before.us}).line(min, max) {
+					// nothing of a rejected report reaches the estimator: no publish, the getter and the stats as they were
+					untouched = "reject a-rejected-report-changed-the-estimator: before " + before.line(min, max) + " / after " + ob.line(min, max)
+				}
+				before = &ob
 				last = &ob
 				if onFb != nil {
 					onFb(ob, min, max)
@@ -309,22 +604,40 @@ func gccSession(t *testing.T, ops []string, o *Out, onFb func(gccObs, int, int))
 					o.P("bad-op")
 					continue
 				}
-				o.P("%s", last.check(prev, min, max))
+				rec, recOK := gccParseTrace(m)
+				switch {
+				case recOK && (rec.line(atoi(m["min"]), atoi(m["max"])) != last.line(min, max)):
+					// The line was recorded in another context (ops before it were removed while a failing case was
+					// being reduced): it says nothing about the code.  Answer what the acceptor answers for the
+					// recorded values, so that such a case is no witness and the reduction keeps away from it.
+					o.P("%s", gccAcceptorVerdict(min, max, atoi(m["min"]), atoi(m["max"]), rprev, rprevUpd, rec))
+				case untouched != "":
+					o.P("%s", untouched)
+				default:
+					o.P("%s", last.check(prev, min, max))
+				}
+				untouched = ""
 				prev = last.target
+				if recOK {
+					rprev, rprevUpd = rec.target, !(rec.dt == 0 && rec.lt == 0)
+				} else {
+					rprev, rprevUpd = last.target, !(last.dt == 0 && last.lt == 0)
+				}
 				last = nil
 			case "close":
-				if bwe == nil {
+				if in == nil {
 					o.P("bad-op")
 					continue
 				}
 				synctest.Wait()
+				pr.at("Close")
 				func() {
 					defer func() {
 						if recover() != nil {
 							o.P("close PANIC")
 						}
 					}()
-					err := bwe.Close()
+					err := in.bwe.Close()
 					switch {
 					case err == nil:
 						o.P("close err=nil")
@@ -351,7 +664,7 @@ func inBubbleT(f func(t *testing.T)) {
 
 func genGcc(r *Rng, tier string, idx int) Case {
 	classes := []string{"wellformed", "lossy", "heavyloss", "reordered", "identical", "hugegaps", "congested",
-		"rfc8888", "mixed", "closed", "minabove100k", "minequalsmax", "ratecalc"}
+		"rfc8888", "mixed", "closed", "minabove100k", "minequalsmax", "ratecalc", "slowcb", "rejected"}
 	cl := classes[idx%len(classes)]
 	type cfgT struct{ ini, mn, mx int }
 	grid := []cfgT{{10_000, 5_000, 50_000_000}, {1_000_000, 1_000_000, 1_000_000}, {2_000_000, 1_000_000, 5_000_000},
@@ -365,12 +678,17 @@ func genGcc(r *Rng, tier string, idx int) Case {
 		v := r.Pick(1, 5000, 100_000, 1_000_000, 150_000_000)
 		cfg = cfgT{v, v, v}
 	}
+	if cl == "slowcb" || cl == "rejected" {
+		// configurations in which the target moves with almost every feedback
+		cfg = []cfgT{{10_000, 5_000, 50_000_000}, {2_000_000, 1_000_000, 5_000_000}, {800_000, 100_000, 100_000_000},
+			{300_000, 100_001, 2_000_000}, {150_000_000, 5_000, 200_000_000}}[r.Intn(5)]
+	}
 	pacer := "noop"
 	if r.Chance(1, 3) {
 		pacer = "leaky"
 	}
 	ext := 1
-	if cl == "rfc8888" || (cl != "minabove100k" && r.Chance(1, 6)) {
+	if cl == "rfc8888" || (cl != "minabove100k" && cl != "rejected" && r.Chance(1, 6)) {
 		ext = 0
 	}
 	pcerr := 0
@@ -400,9 +718,23 @@ func genGcc(r *Rng, tier string, idx int) Case {
 		loss = r.Pick(0, 15, 43, 60)
 	}
 	lastArr, rcMode := 0, 0
+	gated := 0 // feedbacks left until the callback gate opens again (0: open)
+	gates := cl == "slowcb" || (cl == "rejected" && r.Chance(1, 3))
 	for i := 0; i < nfb; i++ {
 		if i == closeAt {
 			ops = append(ops, "close")
+		}
+		if gates {
+			switch {
+			case gated == 0 && r.Chance(1, 4):
+				ops = append(ops, "gate open=0")
+				gated = r.Range(1, 8)
+			case gated == 1:
+				ops = append(ops, "gate open=1")
+				gated = 0
+			case gated > 1:
+				gated--
+			}
 		}
 		n := r.Range(1, 12)
 		size := r.Pick(100, 500, 1000, 1200)
@@ -422,7 +754,7 @@ func genGcc(r *Rng, tier string, idx int) Case {
 		for k := 0; k < n; k++ {
 			arr := sendT[k] + owd + queue
 			mode := cl
-			if cl == "mixed" || cl == "closed" || cl == "rfc8888" || cl == "minabove100k" || cl == "minequalsmax" {
+			if cl == "mixed" || cl == "closed" || cl == "rfc8888" || cl == "minabove100k" || cl == "minequalsmax" || cl == "slowcb" || cl == "rejected" {
 				mode = []string{"wellformed", "reordered", "identical", "congested", "wellformed"}[r.Intn(5)]
 			}
 			switch mode {
@@ -481,8 +813,27 @@ func genGcc(r *Rng, tier string, idx int) Case {
 		if ext == 0 {
 			kind = "8888"
 		}
-		ops = append(ops, fmt.Sprintf("fb kind=%s base=%d a=%s", kind, tw&0xFFFF, strings.Join(a, ",")))
+		fbOp := fmt.Sprintf("fb kind=%s base=%d a=%s", kind, tw&0xFFFF, strings.Join(a, ","))
+		received := false
+		for _, x := range a {
+			received = received || x != "x"
+		}
+		lost := false
+		if cl == "rejected" && kind == "twcc" && received && r.Chance(1, 3) {
+			// a report the feedback adapter rejects, then (mostly) the well-formed one about the same packets
+			for k := r.Pick(1, 1, 1, 2, 3); k > 0; k-- {
+				ops = append(ops, fbOp+" bad="+[]string{"short", "unk"}[r.Intn(2)])
+			}
+			lost = r.Chance(1, 4)
+		}
+		if !lost {
+			ops = append(ops, fbOp)
+		}
 		tw += n
+	}
+	if gated > 0 && r.Chance(3, 4) {
+		ops = append(ops, "gate open=1") // otherwise the Close of the tail finds callbacks still running
+		gated = 0
 	}
 	// lifecycle tail: Close (the drawn pacer may fail to close), feedback of both kinds after Close,
 	// sometimes a second Close and feedback again
@@ -503,11 +854,30 @@ func genGcc(r *Rng, tier string, idx int) Case {
 			tail()
 		}
 	}
-	// execute on the real code and interleave the observed TRACE lines
+	if gated > 0 {
+		ops = append(ops, "gate open=1")
+	}
+	// execute on the real code and interleave the observed TRACE lines.  Once a session has been given up as
+	// blocked the remaining cases are written without TRACE lines (the run will report the blocked call; a
+	// generator that waits gccPatience for every later case would not finish).
 	var traces []string
-	inBubbleT(func(t *testing.T) {
-		gccSession(t, ops, &Out{}, func(ob gccObs, mn, mx int) { traces = append(traces, ob.line(mn, mx)) })
-	})
+	var tmu sync.Mutex
+	if !gccGenBlocked.Load() {
+		if gccWatched(&Out{}, func(so *Out, pr *gccProgress) {
+			inBubbleT(func(t *testing.T) {
+				gccSession(t, ops, so, func(ob gccObs, mn, mx int) {
+					tmu.Lock()
+					traces = append(traces, ob.line(mn, mx))
+					tmu.Unlock()
+				}, pr)
+			})
+		}) {
+			gccGenBlocked.Store(true)
+		}
+	}
+	tmu.Lock()
+	traces = append([]string(nil), traces...)
+	tmu.Unlock()
 	var out []string
 	ti := 0
 	closed := false
@@ -524,13 +894,17 @@ func genGcc(r *Rng, tier string, idx int) Case {
 	return Case{Class: cl, Ops: out}
 }
 
+var gccGenBlocked atomic.Bool
+
 func init() {
 	register("gccbwe", &Comp{N: c17N(1000, 6000), Gen: genGcc,
 		Run: func(t *testing.T, ops []string, o *Out) {
-			if os.Getenv("VERIF_GCC_TRACE") != "" { // aid for writing corpus files: print the fresh TRACE lines
-				gccSession(t, ops, o, func(ob gccObs, mn, mx int) { o.P("%s", ob.line(mn, mx)) })
-				return
-			}
-			gccSession(t, ops, o, nil)
+			gccWatched(o, func(so *Out, pr *gccProgress) {
+				if os.Getenv("VERIF_GCC_TRACE") != "" { // aid for writing corpus files: print the fresh TRACE lines
+					gccSession(t, ops, so, func(ob gccObs, mn, mx int) { so.P("%s", ob.line(mn, mx)) }, pr)
+					return
+				}
+				gccSession(t, ops, so, nil, pr)
+			})
 		}})
 }
